@@ -231,7 +231,24 @@ Qed.
 
 (* requests and flush: configuration unchanged, chunks to the active sink, nothing lost *)
 Definition io_op (o : op) : bool :=
-  match o with OWrite _ _ | OWritef _ | OFlush => true | _ => false end.
+  match o with OWrite _ _ | OWritef _ | OFlush | OTeardown | ODestroy => true | _ => false end.
+
+(* the operations that must leave nothing pending *)
+Definition is_drain (o : op) : bool :=
+  match o with OFlush | OTeardown | ODestroy => true | _ => false end.
+
+Lemma flush_drained s : pending s = [] -> flush s = (s, []).
+Proof. intros H. unfold flush. rewrite H. reflexivity. Qed.
+
+(* destruction flushes twice; the second flush finds nothing *)
+Lemma destroy_eq s : destroy s = flush s.
+Proof.
+  unfold destroy, teardown. destruct (flush s) as [s1 d1] eqn:E.
+  pose proof (flush_props _ _ _ E) as (Hp & _). rewrite (flush_drained s1 Hp), app_nil_r. reflexivity.
+Qed.
+
+Lemma step_drain s o : is_drain o = true -> step s o = Ok (flush s).
+Proof. destruct o; try discriminate; intros _; cbn [step]; [reflexivity|reflexivity|rewrite destroy_eq; reflexivity]. Qed.
 
 Lemma step_io s o bs : inv s -> io_op o = true -> asked o = Some bs ->
   exists s' d,
@@ -239,25 +256,34 @@ Lemma step_io s o bs : inv s -> io_op o = true -> asked o = Some bs ->
     cap s' = cap s /\ has_func s' = has_func s /\ has_fd s' = has_fd s /\
     (0 < cap s -> Forall (chunk_ok (cap s)) d) /\ tagged (active s) d /\
     (active s <> None -> bytes d ++ pending s' = pending s ++ bs) /\
-    (bs = [] -> active s = None -> pending s' = pending s \/ o = OFlush).
+    (bs = [] -> active s = None -> pending s' = pending s \/ pending s' = []) /\
+    (is_drain o = true -> pending s' = []).
 Proof.
-  intros Hinv Hio Hask. destruct o as [mem len|f| |n|b|b]; try discriminate; cbn [step].
-  - rewrite asked_write in Hask.
-    destruct (write_str_spec s mem len bs Hinv Hask) as (s' & d & Hw & Hi & Hc & Hf & Hd & Hall & Htag & Hst & He).
-    exists s', d. split; [exact Hw|]. split; [exact Hi|]. do 6 (split; [assumption|]). intros Hb _; left; auto.
-  - cbn [asked] in Hask. injection Hask as <-. unfold write_strf.
-    destruct (write_str_spec s (f ++ [0]) (zlen f) f Hinv (req_bytes_strf f)) as (s' & d & Hw & Hi & Hc & Hf & Hd & Hall & Htag & Hst & He).
-    exists s', d. split; [exact Hw|]. split; [exact Hi|]. do 6 (split; [assumption|]). intros Hb _; left; auto.
-  - cbn [asked] in Hask. injection Hask as <-.
+  intros Hinv Hio Hask.
+  destruct (is_drain o) eqn:Edr.
+  { (* flush, teardown, destroy *)
+    assert (Hbs : bs = []) by (destruct o; try discriminate; cbn [asked] in Hask; injection Hask as <-; reflexivity).
+    subst bs. rewrite (step_drain s o Edr).
     destruct (flush s) as [s' d] eqn:Efl. pose proof (flush_props _ _ _ Efl) as (Hp & Hc & Hf & Hd & Hdl & Htag & Hcat).
     exists s', d. split; [reflexivity|]. destruct Hinv as (Hc0 & Hnil & Hlt). split.
     { unfold inv. rewrite Hc, Hp. repeat split; auto; intros; unfold zlen; cbn [length]; lia. }
-    repeat split; auto.
-    + intros Hpos. destruct Hdl as [->|[[t ->] Hne]]; [constructor|].
+    do 3 (split; [assumption|]). split.
+    { intros Hpos. destruct Hdl as [->|[[t ->] Hne]]; [constructor|].
       constructor; [|constructor]. unfold chunk_ok. cbn [snd]. specialize (Hlt Hpos).
       assert (zlen (pending s) <> 0) by (rewrite zlen_nil_iff; exact Hne).
-      pose proof (zlen_nonneg (pending s)). lia.
-    + intros Ha. rewrite Hp, !app_nil_r. apply Hcat; exact Ha.
+      pose proof (zlen_nonneg (pending s)). lia. }
+    split; [exact Htag|]. split.
+    { intros Ha. rewrite Hp, !app_nil_r. apply Hcat; exact Ha. }
+    split; [intros _ _; right; exact Hp|intros _; exact Hp]. }
+  destruct o as [mem len|f| | | |n|n|b|b]; try discriminate; cbn [step].
+  - rewrite asked_write in Hask.
+    destruct (write_str_spec s mem len bs Hinv Hask) as (s' & d & Hw & Hi & Hc & Hf & Hd & Hall & Htag & Hst & He).
+    exists s', d. split; [exact Hw|]. split; [exact Hi|]. do 6 (split; [assumption|]).
+    split; [intros Hb _; left; auto|discriminate].
+  - cbn [asked] in Hask. injection Hask as <-. unfold write_strf.
+    destruct (write_str_spec s (f ++ [0]) (zlen f) f Hinv (req_bytes_strf f)) as (s' & d & Hw & Hi & Hc & Hf & Hd & Hall & Htag & Hst & He).
+    exists s', d. split; [exact Hw|]. split; [exact Hi|]. do 6 (split; [assumption|]).
+    split; [intros Hb _; left; auto|discriminate].
 Qed.
 
 (* reconfigurations deliver nothing *)
@@ -265,15 +291,19 @@ Lemma step_config s o : inv s -> io_op o = false -> asked o <> None ->
   exists s', step s o = Ok (s', []) /\ inv s' /\
     match o with
     | OSetBuf n => s' = set_output_buffer s n
+    | OSetBufFail n => s' = set_output_buffer_failed s n
     | OSetFunc b => s' = set_output_func s b
     | OSetFd b => s' = set_output_fd s b
     | _ => False
     end.
 Proof.
-  intros Hinv Hio Hask. destruct o as [mem len|f| |n|b|b]; try discriminate; cbn [step].
+  intros Hinv Hio Hask. destruct o as [mem len|f| | | |n|n|b|b]; try discriminate; cbn [step].
   - cbn [asked] in Hask. destruct (n <? 0) eqn:En; [contradiction Hask; reflexivity|].
     exists (set_output_buffer s n). split; [reflexivity|]. split; [|reflexivity].
     unfold set_output_buffer, inv; cbn [cap pending]. repeat split; auto; try lia; intros; unfold zlen; cbn [length]; lia.
+  - cbn [asked] in Hask. destruct (n <? 0) eqn:En; [contradiction Hask; reflexivity|].
+    exists (set_output_buffer_failed s n). split; [reflexivity|]. split; [|reflexivity].
+    unfold set_output_buffer_failed, inv; cbn [cap pending]. repeat split; auto; try lia; intros; unfold zlen; cbn [length]; lia.
   - exists (set_output_func s b). split; [reflexivity|]. split; [|reflexivity]. exact Hinv.
   - exists (set_output_fd s b). split; [reflexivity|]. split; [|reflexivity]. exact Hinv.
 Qed.
@@ -282,9 +312,10 @@ Qed.
    never a normal result *)
 Lemma step_fault s o : asked o = None -> step s o = Fault.
 Proof.
-  destruct o as [mem len|f| |n|b|b]; cbn [step asked]; try discriminate.
+  destruct o as [mem len|f| | | |n|n|b|b]; cbn [step asked]; try discriminate.
   - intros H. change (asked (OWrite mem len) = None) in H. rewrite asked_write in H.
     unfold write_str. rewrite H. reflexivity.
+  - destruct (n <? 0); [reflexivity|discriminate].
   - destruct (n <? 0); [reflexivity|discriminate].
 Qed.
 
@@ -317,10 +348,10 @@ Qed.
 
 (* ---------------- C11_flush_drains / C11_chunk_bound ---------------- *)
 
-Theorem flush_drains s s' d : step s OFlush = Ok (s', d) ->
+Theorem flush_drains s o s' d : is_drain o = true -> step s o = Ok (s', d) ->
   pending s' = [] /\ tagged (active s) d /\ forall k, to_sink k d = pend_to k s.
 Proof.
-  cbn [step]. intros [= H]. apply flush_props in H.
+  intros Hdr. rewrite (step_drain s o Hdr). intros [= H]. apply flush_props in H.
   destruct H as (Hp & _ & _ & _ & Hdl & Htag & Hcat). split; [exact Hp|]. split; [exact Htag|].
   intros k. rewrite (to_sink_tagged k _ _ Htag). unfold pend_to.
   destruct (osink_eqb (active s) (Some k)) eqn:E; [|reflexivity].
@@ -341,7 +372,7 @@ Qed.
 
 (* histories that do not resize: every chunk of the whole run is bounded by the one size *)
 Fixpoint no_resize (ops : list op) : Prop :=
-  match ops with [] => True | OSetBuf _ :: _ => False | _ :: r => no_resize r end.
+  match ops with [] => True | (OSetBuf _ | OSetBufFail _) :: _ => False | _ :: r => no_resize r end.
 
 Theorem chunk_bound_run : forall ops s s' outs, inv s -> no_resize ops -> 0 < cap s ->
   run s ops = Ok (s', outs) -> Forall (chunk_ok (cap s)) (concat outs).
@@ -400,8 +431,8 @@ Proof.
       destruct (IH s1 s2 ds Hi1 Hsz' Er) as (Hi2 & Hk). split; [exact Hi2|].
       intros k. destruct (Hk k) as (bs' & Hstr & Hcat).
       assert (Hbs : bs = []).
-      { destruct o; try discriminate; cbn [asked] in Ea; try (injection Ea as <-; reflexivity).
-        destruct (n <? 0); [discriminate|injection Ea as <-; reflexivity]. }
+      { destruct o; try discriminate; cbn [asked] in Ea; try (injection Ea as <-; reflexivity);
+          (destruct (n <? 0); [discriminate|injection Ea as <-; reflexivity]). }
       subst bs.
       assert (Hcfg : (match o with OSetFunc b => (b, has_fd s) | OSetFd b => (has_func s, b) | _ => (has_func s, has_fd s) end)
                      = (has_func s1, has_fd s1)).
@@ -410,9 +441,12 @@ Proof.
       split; [destruct (is_active k _ _); reflexivity|].
       cbn [concat]. rewrite to_sink_app, to_sink_nil. cbn [app]. rewrite Hcat. f_equal.
       (* what is pending for sink k is the same before and after the reconfiguration *)
-      unfold pend_to. destruct o as [| | |n|b|b]; try contradiction; subst s1.
+      unfold pend_to. destruct o as [| | | | |n|n|b|b]; try contradiction; subst s1.
       * change (active (set_output_buffer s n)) with (active s).
         cbn [set_output_buffer pending]. rewrite Hdr.
+        destruct (osink_eqb (active s) (Some k)); reflexivity.
+      * change (active (set_output_buffer_failed s n)) with (active s).
+        cbn [set_output_buffer_failed pending]. rewrite Hdr.
         destruct (osink_eqb (active s) (Some k)); reflexivity.
       * cbn [pending set_output_func].
         destruct (osink_eqb (active (set_output_func s b)) (Some k)) eqn:E1,
@@ -437,16 +471,17 @@ Proof.
   - destruct (step s o) as [[s1 d]| |] eqn:Est; auto.
     destruct (asked o) as [bs|] eqn:Ea; [|rewrite step_fault in Est by exact Ea; discriminate].
     destruct (io_or_config o) as [Hio|Hio].
-    + destruct (step_io s o bs Hinv Hio Ea) as (s1' & d1 & Hst1 & Hi1 & _).
+    + destruct (step_io s o bs Hinv Hio Ea) as (s1' & d1 & Hst1 & Hi1 & _ & _ & _ & _ & _ & _ & _ & Hdrain).
       rewrite Est in Hst1. injection Hst1 as <- <-.
-      destruct o as [mem len|f| |n|b|b]; try discriminate; cbn [config_after_flush] in Hsyn.
-      * apply (IH s1 false); auto. discriminate.
-      * apply (IH s1 false); auto. discriminate.
-      * apply (IH s1 true); auto. intros _. cbn [step] in Est. injection Est as Est.
-        apply flush_props in Est. tauto.
+      destruct o as [mem len|f| | | |n|n|b|b]; try discriminate; cbn [config_after_flush] in Hsyn.
+      * apply (IH s1 false); auto; discriminate.
+      * apply (IH s1 false); auto; discriminate.
+      * apply (IH s1 true); auto.
+      * apply (IH s1 true); auto.
+      * apply (IH s1 true); auto.
     + destruct (step_config s o Hinv Hio) as (s1' & Hst1 & Hi1 & Hm); [rewrite Ea; discriminate|].
       rewrite Est in Hst1. injection Hst1 as <- Hd0; subst d.
-      destruct o as [mem len|f| |n|b|b]; try contradiction; cbn [config_after_flush] in Hsyn;
+      destruct o as [mem len|f| | | |n|n|b|b]; try contradiction; cbn [config_after_flush] in Hsyn;
         apply andb_prop in Hsyn; destruct Hsyn as (Hd & Hsyn); subst s1;
         apply (IH _ true); auto.
 Qed.
@@ -464,9 +499,9 @@ Proof.
     { specialize (Hstr SFunc). cbn [stream_to] in Hstr. destruct (asked o) as [a|]; [eexists; reflexivity|].
       destruct (match o with OSetFunc b => _ | OSetFd b => _ | _ => _ end). contradiction Hstr; reflexivity. }
     destruct Hask as (a & Ea).
-    set (o' := match o with OSetBuf _ => OSetBuf 0 | _ => o end).
+    set (o' := match o with OSetBuf _ | OSetBufFail _ => OSetBuf 0 | _ => o end).
     assert (Ea' : asked o' = Some a).
-    { destruct o; try exact Ea. cbn [asked] in *. destruct (n <? 0); [discriminate|exact Ea]. }
+    { destruct o; try exact Ea; cbn [asked] in *; (destruct (n <? 0); [discriminate|exact Ea]). }
     assert (Hnext : exists s1 d, step s o' = Ok (s1, d) /\ inv s1 /\ cap s1 = 0 /\
               (match o with OSetFunc b => (b, has_fd s) | OSetFd b => (has_func s, b) | _ => (has_func s, has_fd s) end)
                 = (has_func s1, has_fd s1) /\
@@ -483,9 +518,9 @@ Proof.
       - destruct (step_config s o' Hinv Hio) as (s1 & Hst & Hi1 & Hm); [rewrite Ea'; discriminate|].
         exists s1, []. split; [exact Hst|]. split; [exact Hi1|].
         assert (Ha : a = []).
-        { destruct o; try discriminate; cbn [asked] in Ea; try (injection Ea as <-; reflexivity).
-          destruct (n <? 0); [discriminate|injection Ea as <-; reflexivity]. }
-        subst a. destruct o as [| | |n|b|b]; try discriminate; cbn [o'] in Hm; subst s1;
+        { destruct o; try discriminate; cbn [asked] in Ea; try (injection Ea as <-; reflexivity);
+            (destruct (n <? 0); [discriminate|injection Ea as <-; reflexivity]). }
+        subst a. destruct o as [| | | | |n|n|b|b]; try discriminate; cbn [o'] in Hm; subst s1;
           (split; [try reflexivity; exact Hcap|split; [reflexivity|intros k; destruct (is_active k _ _); reflexivity]]). }
     destruct Hnext as (s1 & d & Hst & Hi1 & Hc1 & Hcfg & Hd).
     assert (Hstr1 : forall k, stream_to k (has_func s1) (has_fd s1) r <> None).
@@ -596,7 +631,7 @@ Proof.
   pose proof (ck_active k s Hk) as Hact. destruct Hk as (Hkc & Hkf & Hkd & Hko & Hkn).
   pose proof (proj1 Hinv) as Hc0.
   destruct (io_or_config o) as [Hio|Hio].
-  - destruct (step_io s o bs Hinv Hio Ea) as (s1' & d1 & Hst1 & Hi1 & Hc1 & Hf1 & Hd1 & Hall & Htag & Hcat & Hnone).
+  - destruct (step_io s o bs Hinv Hio Ea) as (s1' & d1 & Hst1 & Hi1 & Hc1 & Hf1 & Hd1 & Hall & Htag & Hcat & Hnone & Hdrain).
     rewrite Est in Hst1. injection Hst1 as <- <-.
     assert (Hact1 : active s1 = active s) by (unfold active; rewrite Hf1, Hd1; reflexivity).
     rewrite check_step_io by exact Hio. rewrite Ea, Hact.
@@ -605,8 +640,7 @@ Proof.
       rewrite Hko, Hkc, <- Hcat, take_chunks_app by (try exact Hall; try exact Htag; exact Hc0).
       assert (Hdr : must_drain k o = true -> pending s1 = []).
       { unfold must_drain. destruct Hi1 as (_ & Hn1 & _).
-        destruct o; try discriminate; try (intros H0; apply Hn1; lia).
-        intros _. cbn [step] in Est. injection Est as Est. apply flush_props in Est. tauto. }
+        destruct o; try discriminate; try (intros H0; apply Hn1; lia); intros _; apply Hdrain; reflexivity. }
       destruct (must_drain k o) eqn:Em.
       * rewrite (Hdr eq_refl). cbn [is_nil negb andb].
         eexists _, false; split; [reflexivity|]. intros _. unfold ck_matches, with_outst; cbn [k_cap k_func k_fd k_outst].
@@ -620,18 +654,21 @@ Proof.
       subst d. cbn [is_nil]. destruct bs as [|b bs'].
       * cbn [is_nil]. eexists _, false; split; [reflexivity|]. intros _.
         assert (Hp1 : pending s1 = []).
-        { destruct (Hnone eq_refl eq_refl) as [Hp| ->]; [rewrite Hp; apply Hkn; reflexivity|].
-          cbn [step] in Est. injection Est as Est. apply flush_props in Est. tauto. }
+        { destruct (Hnone eq_refl eq_refl) as [Hp|Hp]; [rewrite Hp; apply Hkn; reflexivity|exact Hp]. }
         unfold ck_matches. rewrite Hp1. repeat split; try congruence.
         rewrite Hko. apply Hkn; reflexivity.
       * cbn [is_nil]. eexists _, true; split; [reflexivity|]. discriminate.
   - destruct (step_config s o Hinv Hio) as (s1' & Hst1 & Hi1 & Hm); [rewrite Ea; discriminate|].
     rewrite Est in Hst1. injection Hst1 as <- Hd0; subst d.
-    destruct o as [mem len|f| |n|b|b]; try contradiction; subst s1.
+    destruct o as [mem len|f| | | |n|n|b|b]; try contradiction; subst s1.
     + cbn [asked] in Ea. destruct (n <? 0) eqn:En; [discriminate|].
       unfold check_step. cbn [is_nil andb]. assert (H0 : (0 <=? n) = true) by lia. rewrite H0.
       eexists _, false; split; [reflexivity|]. intros _.
       unfold ck_matches, set_output_buffer; cbn. repeat split; congruence.
+    + cbn [asked] in Ea. destruct (n <? 0) eqn:En; [discriminate|].
+      unfold check_step. cbn [is_nil andb]. assert (H0 : (0 <=? n) = true) by lia. rewrite H0.
+      eexists _, false; split; [reflexivity|]. intros _.
+      unfold ck_matches, set_output_buffer_failed; cbn. repeat split; congruence.
     + unfold check_step. cbn [take_chunks].
       set (k' := mkCk (k_cap k) b (k_fd k) (k_outst k) (k_forfeit k)).
       assert (Hact' : k_active k' = active (set_output_func s b)).
@@ -696,11 +733,13 @@ Lemma check_step_forfeit_mono k o d k1 stop : check_step k o d = Some (k1, stop)
   k_forfeit k1 = false -> k_forfeit k = false /\ stop = false.
 Proof.
   unfold check_step. intros H Hf.
-  destruct o as [mem len|f| |n|b|b].
-  1-3: (destruct (asked _) as [bs|]; [|discriminate]; destruct (k_active k);
+  destruct o as [mem len|f| | | |n|n|b|b].
+  1-5: (destruct (asked _) as [bs|]; [|discriminate]; destruct (k_active k);
         [destruct (take_chunks _ _ _ _); [|discriminate]; destruct (_ && _); [discriminate|];
          injection H as <- <-; auto
         |destruct (is_nil d); [|discriminate]; destruct (is_nil bs); injection H as <- <-; auto; discriminate]).
+  - destruct (is_nil d && (0 <=? n)); [|discriminate]. injection H as <- <-.
+    cbn [k_forfeit] in Hf. apply orb_false_iff in Hf. tauto.
   - destruct (is_nil d && (0 <=? n)); [|discriminate]. injection H as <- <-.
     cbn [k_forfeit] in Hf. apply orb_false_iff in Hf. tauto.
   - destruct (take_chunks _ _ _ _); [|discriminate].
@@ -736,8 +775,8 @@ Proof.
     pose proof (check_from_forfeit_mono _ _ _ _ Hc Hf) as Hf1.
     destruct (IH ds k1 k' Hc Hf snk) as (bs' & Hstr & Hcat).
     unfold check_step in Es.
-    destruct o as [mem len|f| |n|b|b].
-    1-3: (destruct (asked _) as [bs|] eqn:Ea; [|discriminate];
+    destruct o as [mem len|f| | | |n|n|b|b].
+    1-5: (destruct (asked _) as [bs|] eqn:Ea; [|discriminate];
           destruct (k_active k) as [t|] eqn:Eact;
           [ destruct (take_chunks _ _ _ _) as [rest|] eqn:Et; [|discriminate];
             destruct (_ && _); [discriminate|]; injection Es as <-;
@@ -756,6 +795,16 @@ Proof.
             exists bs'; cbn [stream_to]; rewrite Ea, Hstr;
             split; [destruct (is_active snk _ _); reflexivity|];
             cbn [concat]; rewrite to_sink_app, to_sink_nil; exact Hcat ]).
+    + destruct (is_nil d && (0 <=? n)) eqn:Eb; [|discriminate]. injection Es as <-.
+      cbn [k_forfeit] in Hf1. apply orb_false_iff in Hf1. destruct Hf1 as (_ & Hnil).
+      apply andb_prop in Eb. destruct Eb as (Ed & En).
+      destruct d; [|discriminate]. destruct (k_outst k) eqn:Eo; [|discriminate].
+      exists bs'. cbn [stream_to asked]. assert (Hn : (n <? 0) = false) by lia.
+      cbn [k_func k_fd] in Hstr. rewrite Hn, Hstr.
+      split; [destruct (is_active snk _ _); reflexivity|].
+      cbn [concat]. rewrite to_sink_app, to_sink_nil. cbn [app]. rewrite <- Hcat.
+      unfold outst_to, k_active; cbn [k_func k_fd k_outst]. rewrite Eo.
+      destruct (osink_eqb _ _); reflexivity.
     + destruct (is_nil d && (0 <=? n)) eqn:Eb; [|discriminate]. injection Es as <-.
       cbn [k_forfeit] in Hf1. apply orb_false_iff in Hf1. destruct Hf1 as (_ & Hnil).
       apply andb_prop in Eb. destruct Eb as (Ed & En).
@@ -796,6 +845,9 @@ Proof.
           rewrite ?Et, ?app_nil_r; reflexivity.
 Qed.
 
+Theorem failed_alloc_unbuffered s n : 0 <= n -> step s (OSetBufFail n) = step s (OSetBuf 0).
+Proof. intros H. cbn [step]. destruct (n <? 0) eqn:E; [lia|]. reflexivity. Qed.
+
 (* ---------------- non-vacuity ---------------- *)
 
 (* function AND descriptor set, buffer of 3, writes of 2 (NUL-terminated, len 0) and 5 bytes
@@ -805,18 +857,23 @@ Qed.
    the first part go to the descriptor instead of the function. *)
 Example nonvacuous :
   let ops := [OSetBuf 3; OWrite [97; 98; 0] 0; OWrite [99; 100; 101; 102; 103] 5; OWritef []; OFlush;
-              OSetFunc false; OWrite [104; 105] 2; OFlush] in
+              OSetFunc false; OWrite [104; 105] 2; OTeardown; OWrite [106] 1; ODestroy] in
   let good := [[]; []; [(SFunc, [97; 98; 99]); (SFunc, [100; 101; 102])]; []; [(SFunc, [103])];
-               []; []; [(SFd, [104; 105])]] in
+               []; []; [(SFd, [104; 105])]; []; [(SFd, [106])]] in
   run (init true true) ops = Ok (mkOB 3 [] false true, good) /\
   stream_to SFunc true true ops = Some [97; 98; 99; 100; 101; 102; 103] /\
-  stream_to SFd true true ops = Some [104; 105] /\
+  stream_to SFd true true ops = Some [104; 105; 106] /\
   config_when_drained (init true true) ops /\
   check true true ops good = true /\
-  check true true ops [[]; []; [(SFunc, [97; 98; 99]); (SFunc, [100; 101; 102])]; []; [];
-                       []; []; [(SFd, [104; 105])]] = false /\
+  (* what was written after the teardown is never delivered *)
+  check true true ops [[]; []; [(SFunc, [97; 98; 99]); (SFunc, [100; 101; 102])]; []; [(SFunc, [103])];
+                       []; []; [(SFd, [104; 105])]; []; []] = false /\
+  (* the buffered chunks go to the descriptor instead of the function *)
   check true true ops [[]; []; [(SFd, [97; 98; 99]); (SFd, [100; 101; 102])]; []; [(SFd, [103])];
-                       []; []; [(SFd, [104; 105])]] = false.
+                       []; []; [(SFd, [104; 105])]; []; [(SFd, [106])]] = false /\
+  (* a buffer whose allocation fails leaves the terminal unbuffered *)
+  run (init true false) [OSetBufFail 18446744073709551615; OWrite [97; 98] 2; ODestroy]
+    = Ok (mkOB 0 [] true false, [[]; [(SFunc, [97; 98])]; []]).
 Proof.
   vm_compute. repeat split; try reflexivity; intros H; try reflexivity; exfalso; apply H; reflexivity.
 Qed.
